@@ -28,3 +28,16 @@ func (v *VerifSketch) VerifAdmit(candidate, victim int, draw uint32) bool {
 	p.rand = func() uint32 { return draw }
 	return p.admit(candidate, victim)
 }
+
+// VerifDrainState reports the drain status word, the write buffer size and whether the eviction lock is free.
+func VerifDrainState[K comparable, V any](c *Cache[K, V]) (ds uint32, wb uint64, lockFree bool) {
+	ds = c.cache.drainStatus.Load()
+	if c.cache.writeBuffer != nil {
+		wb = c.cache.writeBuffer.Size()
+	}
+	lockFree = c.cache.evictionMutex.TryLock()
+	if lockFree {
+		c.cache.evictionMutex.Unlock()
+	}
+	return
+}
